@@ -26,7 +26,7 @@ def enum_schedules(maxlen, maxdelay):
 
 def run(chk):
     chk.prove([resolve_tr.translate])
-    cases = enum_schedules(4 if chk.thorough else 3, 3 if chk.thorough else 2)
+    cases = rc.corpus_cases("C08") + enum_schedules(4 if chk.thorough else 3, 3 if chk.thorough else 2)
     # an anchor that resolves late keeps postponed rounds alive: add chained anchors
     n = 1500 if chk.thorough else 250
     for i in range(n):
